@@ -1,6 +1,7 @@
 package main
 
 import (
+	"encoding/json"
 	"fmt"
 	"strconv"
 	"strings"
@@ -9,6 +10,7 @@ import (
 	"github.com/bfenetworks/bfe/bfe_balance/backend"
 	"github.com/bfenetworks/bfe/bfe_balance/bal_gslb"
 	"github.com/bfenetworks/bfe/bfe_balance/bal_slb"
+	"github.com/bfenetworks/bfe/bfe_basic"
 	"github.com/bfenetworks/bfe/bfe_config/bfe_cluster_conf/cluster_table_conf"
 	"github.com/bfenetworks/bfe/bfe_config/bfe_cluster_conf/gslb_conf"
 
@@ -366,18 +368,24 @@ func c01RandWeights(g *vkit.Rand) []int {
 }
 
 func c01(r *vkit.Run) {
-	r.SetRule("weight vectors: every vector with N<=4, w in 1..5 (780, each as init / noop-update at EVERY offset 0..W-1 / gslb) plus random vectors N 1..8, w 1..12 (equal, dominant, primes, duplicates, uniform), a quarter of them with some backends unavailable or weight 0 from before the first pick. Each run records (periods+1)*W picks and checks every window of W picks, seq[t]==seq[t+W], and equality of two fresh instances with different names/addresses. Windows are asserted from Init and across Updates that keep the (address, weight) multiset (slow start off); sequences after weight-changing reloads are not asserted. Non-trivial = >=2 eligible backends; distinct = (weights, down mask, variant, update offset)")
+	r.SetRule("weight vectors: every vector with N<=4, w in 1..5 (780, each as init / noop-update at EVERY offset 0..W-1 / gslb) plus random vectors N 1..8, w 1..12 (equal, dominant, primes, duplicates, uniform), a quarter of them with some backends unavailable or weight 0 from before the first pick. Each run records (periods+1)*W picks and checks every window of W picks, seq[t]==seq[t+W], and equality of two fresh instances with different names/addresses. Windows are asserted from Init and across Updates that keep the (address, weight) multiset (slow start off); sequences after weight-changing reloads are not asserted. Non-trivial = >=2 eligible backends; distinct = (weights, down mask, variant, update offset). " +
+		"RELOAD HISTORIES (BalanceRR direct, a quarter through BalanceGslb.BackendReload): 15000 (thorough 300000) random histories Init(A), 1-5 reloads of kind weight (survivors' weights change, incl. to 0) / add / remove / replace (same length) / mixed / noop-same / noop-reorder (same (addr,weight) multiset in another order), each followed by 0..3W picks, then 0..8W picks and 1-4 no-op reloads each followed by 1..3W picks, so that no-op reloads land on every phase; plus systematically every ordered pair A->B of weight vectors (quick: N=2 w<=5, N=3 w<=3) x every phase u in 0..W_B-1: Init(A), Update(B), 4W_B+u picks, Update(B), 2W_B+1 picks, Update(B reversed), 2W_B picks. Asserted: (1) the pick sequence equals that of a twin balancer that runs the same history without the no-op reloads (noop-reload-disturbs-sequence); (2) in the steady segment after the LAST configuration-changing reload, from the first exact window of W picks (starting >=1 pick after the change; the real code needs up to ~3 periods after a change, reported in reload_histories, not asserted) every later window of W picks is exact and seq[t]==seq[t+W], across all no-op reloads (steady-window-count, steady-period). History non-trivial = >=2 eligible backends in the final list and >=1 no-op reload with a full exact window before it and a pick after it; distinct = hash of the history")
 	r.Assume("W = sum of configured weights of the eligible backends (the x100 scaling cancels)")
 	periods := r.N(4, 50)
 	if r.Replay != "" {
 		var w struct {
-			Case c01Case `json:"case"`
+			Case c01Case  `json:"case"`
+			Hist *c01Hist `json:"hist"`
 		}
 		if err := r.LoadReplay(&w); err != nil {
 			r.Inconclusive(err.Error())
 			return
 		}
-		c01Check(r, &w.Case, r.Rng("replay"))
+		if w.Hist != nil {
+			c01HistCheck(r, w.Hist, &c01HistStat{})
+		} else {
+			c01Check(r, &w.Case, r.Rng("replay"))
+		}
 		r.SetMinDistinct(0)
 		return
 	}
@@ -441,4 +449,542 @@ func c01(r *vkit.Run) {
 	st := &c01TransientStat{}
 	vkit.Parallel(r.N(500, 5000), 0, func(i int) { c01Transient(r, st, r.Rng("transient", i)) })
 	r.Extra("after_weight_changing_update_reported_not_asserted", st)
+	c01Histories(r)
+}
+
+// ---------------------------------------------------------------------------
+// Reload histories: Init(A) -> reloads (weight changes of survivors, adds,
+// removes, replacements, mixtures, no-op repeats of the current list in the
+// same or another order) interleaved with runs of picks of arbitrary length.
+//
+// Two things are asserted, both on recorded pick sequences only:
+//  (1) differential: a twin balancer runs the same history WITHOUT the no-op
+//      reloads; both pick sequences must be equal (a reload that leaves
+//      backends and weights unchanged must not disturb the sequence);
+//  (2) steady segment = the picks after the LAST configuration-changing reload
+//      (any number of no-op reloads inside it). After a configuration change
+//      the real code needs up to a few periods until windows are exact again
+//      (reported, not asserted, see c01Transient). So (2) is conditional: from
+//      the first window of W picks in the steady segment (starting at least
+//      one pick after the change) that is exact, EVERY later window of W picks
+//      of the segment must be exact and seq[t]==seq[t+W], across all no-op
+//      reloads.
+
+type c01Op struct {
+	Op   string  `json:"op"` // init | update | picks
+	Conf []bspec `json:"conf,omitempty"`
+	N    int     `json:"n,omitempty"`
+}
+
+type c01Hist struct {
+	Via string  `json:"via"` // rr = BalanceRR direct, gslb = BalanceGslb with one sub-cluster
+	Gen string  `json:"gen"` // random | systematic
+	Ops []c01Op `json:"ops"`
+}
+
+func (h *c01Hist) key() string {
+	b, _ := json.Marshal(h)
+	return string(b)
+}
+
+const c01Pool = 16
+
+func c01Spec(id, w int) bspec {
+	// address order is scrambled against the id
+	k := (id * 7) % c01Pool
+	return bspec{Name: fmt.Sprintf("b%d", id), Addr: fmt.Sprintf("10.0.0.%d", 1+k), Port: 8000 + k, Weight: w}
+}
+
+func c01ID(b bspec) int {
+	n, err := strconv.Atoi(strings.TrimPrefix(b.Name, "b"))
+	if err != nil || n < 0 || n >= c01Pool {
+		return -1
+	}
+	return n
+}
+
+var c01HistGen = &histGen{
+	maxN: 7,
+	fresh: func(g *vkit.Rand, cur []bspec) (bspec, bool) {
+		used := map[int]bool{}
+		for _, b := range cur {
+			used[c01ID(b)] = true
+		}
+		if len(used) >= c01Pool {
+			return bspec{}, false
+		}
+		for {
+			id := g.Intn(c01Pool)
+			if !used[id] {
+				return c01Spec(id, g.Range(1, 12)), true
+			}
+		}
+	},
+	newWeight: func(g *vkit.Rand, old int) int {
+		if old != 0 && g.Chance(1, 12) {
+			return 0
+		}
+		for {
+			if w := g.Range(1, 12); w != old {
+				return w
+			}
+		}
+	},
+}
+
+func c01ConfW(conf []bspec) int {
+	W := 0
+	for _, b := range conf {
+		if b.Weight > 0 {
+			W += b.Weight
+		}
+	}
+	return W
+}
+
+// c01Bal drives one balancer through a history.
+type c01Bal struct {
+	rr  *bal_slb.BalanceRR
+	gs  *bal_gslb.BalanceGslb
+	k   int
+	ip  []byte
+	req *bfe_basic.Request
+}
+
+func (b *c01Bal) init(via string, conf []bspec) error {
+	if via == "gslb" {
+		b.gs = bal_gslb.NewBalanceGslb("cl")
+		if err := b.gs.Init(gslb_conf.GslbClusterConf{"sub": 100, "GSLB_BLACKHOLE": 0}); err != nil {
+			return err
+		}
+		return b.gs.BackendInit(cluster_table_conf.ClusterBackend{"sub": confOf(conf)})
+	}
+	b.rr = bal_slb.NewBalanceRR("sub")
+	b.rr.Init(confOf(conf))
+	return nil
+}
+
+func (b *c01Bal) update(conf []bspec) {
+	if b.gs != nil {
+		b.gs.BackendReload(cluster_table_conf.ClusterBackend{"sub": confOf(conf)})
+		return
+	}
+	b.rr.Update(confOf(conf))
+}
+
+var c01GslbBasic = gbasic{RetryMax: 2, CrossRetry: 0, Strategy: 1}
+
+func (b *c01Bal) pick() (int, error) {
+	var be *backend.BfeBackend
+	var err error
+	if b.gs != nil {
+		// one request object per balancer, client address varied in place
+		// (allocation of a bfe_basic.Request per pick dominated the run time)
+		b.k++
+		if b.req == nil {
+			b.ip = []byte{10, 1, 0, 0}
+			b.req = reqSpec{IP: b.ip}.build(c01GslbBasic)
+		}
+		b.ip[2], b.ip[3] = byte(b.k>>8), byte(b.k)
+		b.req.RetryTime = 0
+		be, err = b.gs.Balance(b.req)
+	} else {
+		be, err = b.rr.Balance(bal_slb.WrrSmooth, nil)
+	}
+	if err != nil {
+		return -1, err
+	}
+	return c01Index(be), nil
+}
+
+// c01Mark is one reload of a history, positioned in the pick sequence.
+type c01Mark struct {
+	Pos  int    `json:"before_pick"` // number of picks recorded before the reload
+	Kind string `json:"kind"`
+}
+
+// c01Marks classifies the reloads of a history (a function of the history,
+// not of any run).
+func c01Marks(h *c01Hist) (marks []c01Mark, final []bspec) {
+	pos := 0
+	var cur []bspec
+	for _, op := range h.Ops {
+		switch op.Op {
+		case "init":
+			cur = op.Conf
+		case "update":
+			marks = append(marks, c01Mark{Pos: pos, Kind: histKind(cur, op.Conf)})
+			cur = op.Conf
+		case "picks":
+			pos += op.N
+		}
+	}
+	return marks, cur
+}
+
+func c01RunHist(h *c01Hist, marks []c01Mark, skipNoop bool) ([]int, error) {
+	b := &c01Bal{}
+	n := 0
+	for _, op := range h.Ops {
+		n += op.N
+	}
+	seq := make([]int, 0, n)
+	u := 0
+	for _, op := range h.Ops {
+		switch op.Op {
+		case "init":
+			if err := b.init(h.Via, op.Conf); err != nil {
+				return seq, err
+			}
+		case "update":
+			kind := marks[u].Kind
+			u++
+			if skipNoop && histIsNoop(kind) {
+				continue
+			}
+			b.update(op.Conf)
+		case "picks":
+			for k := 0; k < op.N; k++ {
+				x, err := b.pick()
+				if err != nil {
+					return seq, fmt.Errorf("pick %d: %v", len(seq), err)
+				}
+				seq = append(seq, x)
+			}
+		}
+	}
+	return seq, nil
+}
+
+type c01HistStat struct {
+	mu           sync.Mutex
+	Segments     int          `json:"steady_segments"`
+	ExactAt1     int          `json:"exact_from_the_second_pick_after_the_change"`
+	NeverExact   int          `json:"no_exact_window_observed_in_segment"`
+	MaxT0OverW   float64      `json:"max_picks_before_first_exact_window_over_W"`
+	PhasesSeen   map[int]bool `json:"-"`
+	PhasesSeenN  int          `json:"distinct_W_phase_pairs_of_noop_reloads_in_exact_regime"`
+	PhasesTotalN int          `json:"distinct_W_values_times_phases_possible"`
+	wSeen        map[int]bool
+	Samples      []interface{} `json:"samples"`
+}
+
+func c01HistCheck(r *vkit.Run, h *c01Hist, st *c01HistStat) {
+	if len(h.Ops) == 0 || h.Ops[0].Op != "init" {
+		return
+	}
+	desc := func() interface{} { return map[string]interface{}{"hist": h} }
+	marks, final := c01Marks(h)
+	var seqA, seqB []int
+	var errA, errB error
+	if try(r, desc, func() {
+		seqA, errA = c01RunHist(h, marks, false)
+		seqB, errB = c01RunHist(h, marks, true)
+	}) {
+		return
+	}
+	if errA != nil || errB != nil {
+		r.Violation("history:error-with-eligible:"+h.Via, fmt.Sprintf("Balance failed although an eligible backend exists: %v / %v", errA, errB), desc())
+		return
+	}
+	nNoop, lastChange, lastChangeKind := 0, 0, "init"
+	for _, m := range marks {
+		r.Count("hist_reload_"+m.Kind, 1)
+		if histIsNoop(m.Kind) {
+			nNoop++
+		} else {
+			lastChange, lastChangeKind = m.Pos, m.Kind
+		}
+	}
+	// (1) differential against the twin without the no-op reloads
+	for t := range seqA {
+		if seqA[t] != seqB[t] {
+			kind := "none"
+			for _, m := range marks {
+				if m.Pos <= t && histIsNoop(m.Kind) {
+					kind = m.Kind
+				}
+			}
+			r.Violation("noop-reload-disturbs-sequence:"+kind+":"+h.Via,
+				fmt.Sprintf("pick %d is backend b%d, but b%d in the twin with the same history without the no-op reloads (last no-op reload before it: %s)", t, seqA[t], seqB[t], kind),
+				map[string]interface{}{"hist": h, "reloads": marks, "first_difference_at_pick": t, "seq": seqA, "seq_without_noop_reloads": seqB})
+			break
+		}
+	}
+	// (2) steady segment after the last configuration-changing reload
+	W := c01ConfW(final)
+	want := [c01Pool]int{}
+	elig := 0
+	for _, b := range final {
+		if id := c01ID(b); id >= 0 && b.Weight > 0 {
+			want[id] = b.Weight
+			elig++
+		}
+	}
+	S := seqA[lastChange:]
+	var noopPos []c01Mark // in S coordinates
+	for _, m := range marks {
+		if m.Pos >= lastChange && histIsNoop(m.Kind) {
+			noopPos = append(noopPos, c01Mark{Pos: m.Pos - lastChange, Kind: m.Kind})
+		}
+	}
+	t0 := -1
+	noopInRegime := 0
+	cnt := [c01Pool]int{}
+	ok := true
+	for t, x := range S {
+		if x < 0 || x >= c01Pool || want[x] == 0 {
+			r.Violation("history:unknown-backend:"+h.Via, fmt.Sprintf("pick %d after the last configuration change returned b%d which is not an eligible backend of the final list", t, x),
+				map[string]interface{}{"hist": h, "reloads": marks, "steady_segment": S})
+			ok = false
+			break
+		}
+		cnt[x]++
+		if t >= W {
+			cnt[S[t-W]]--
+		}
+		s := t - W + 1 // window start
+		if s < 1 {
+			continue
+		}
+		exact := cnt == want
+		if t0 < 0 {
+			if exact {
+				t0 = s
+			}
+			continue
+		}
+		if !exact {
+			cause := "no-reload"
+			for _, m := range noopPos {
+				if m.Pos >= t0 && m.Pos <= t {
+					cause = "after-" + m.Kind
+				}
+			}
+			bad := 0
+			for i := range cnt {
+				if cnt[i] != want[i] {
+					bad = i
+					break
+				}
+			}
+			r.Violation("steady-window-count:"+cause+":"+h.Via,
+				fmt.Sprintf("backends and weights unchanged since pick %d (exact windows from pick %d on), yet the window of W=%d picks starting at pick %d selects b%d %d times, weight %d", lastChange, lastChange+t0, W, lastChange+s, bad, cnt[bad], want[bad]),
+				map[string]interface{}{"hist": h, "reloads": marks, "last_change_before_pick": lastChange, "first_exact_window": t0, "window_start": s, "W": W, "steady_segment": S})
+			ok = false
+			break
+		}
+	}
+	if ok && t0 >= 0 {
+		for t := t0; t+W < len(S); t++ {
+			if S[t] != S[t+W] {
+				r.Violation("steady-period:"+h.Via, fmt.Sprintf("steady pick %d = b%d but pick %d+W = b%d (W=%d)", t, S[t], t, S[t+W], W),
+					map[string]interface{}{"hist": h, "reloads": marks, "steady_segment": S})
+				break
+			}
+		}
+		r.Count("hist_windows_asserted", int64(len(S)-W+1-t0))
+	}
+	for _, m := range noopPos {
+		// only no-op reloads that have at least one full window behind them
+		// and one pick after them test anything in (2)
+		if t0 >= 0 && m.Pos >= t0+W && m.Pos < len(S) {
+			noopInRegime++
+			ph := (m.Pos - t0) % W
+			if ph == 0 {
+				r.Count("hist_noop_in_exact_regime_phase0", 1)
+			} else {
+				r.Count("hist_noop_in_exact_regime_phase_nonzero", 1)
+			}
+			st.mu.Lock()
+			if st.PhasesSeen == nil {
+				st.PhasesSeen, st.wSeen = map[int]bool{}, map[int]bool{}
+			}
+			st.PhasesSeen[W*1000+ph] = true
+			st.wSeen[W] = true
+			st.mu.Unlock()
+		}
+	}
+	st.mu.Lock()
+	st.Segments++
+	switch {
+	case t0 < 0:
+		st.NeverExact++
+	case t0 == 1:
+		st.ExactAt1++
+	}
+	if t0 >= 0 {
+		if v := float64(t0) / float64(W); v > st.MaxT0OverW {
+			st.MaxT0OverW = v
+		}
+	}
+	st.mu.Unlock()
+	r.Case(vkit.Hash64("hist", h.key()), elig >= 2 && nNoop > 0 && noopInRegime > 0)
+	r.Count("picks", int64(len(seqA)+len(seqB)))
+	r.Count("hist_"+h.Gen+"_"+h.Via, 1)
+	r.Count("hist_last_change_"+lastChangeKind, 1)
+	if noopInRegime > 0 {
+		r.Count("hist_with_noop_in_exact_regime_after_"+lastChangeKind, 1)
+	}
+	if t0 < 0 {
+		r.Count("hist_steady_segment_without_exact_window", 1)
+	}
+	if h.Gen == "random" && elig >= 3 && noopInRegime > 0 && lastChangeKind == hkWeight && len(seqA) < 300 {
+		// vkit's sample slots are used up by the fresh-balancer cases; history
+		// samples go into the evidence under reload_histories.samples
+		st.mu.Lock()
+		if len(st.Samples) < 3 {
+			st.Samples = append(st.Samples, map[string]interface{}{"hist": h, "reloads": marks, "W": W, "first_exact_window_in_steady_segment": t0, "picks": seqA})
+		}
+		st.mu.Unlock()
+	}
+}
+
+func c01RandHist(g *vkit.Rand) *c01Hist {
+	h := &c01Hist{Via: "rr", Gen: "random"}
+	if g.Chance(1, 4) {
+		h.Via = "gslb"
+	}
+	ws := c01RandWeights(g)
+	if len(ws) > 6 {
+		ws = ws[:6]
+	}
+	ids := g.Perm(c01Pool)
+	cur := make([]bspec, len(ws))
+	for i, w := range ws {
+		cur[i] = c01Spec(ids[i], w)
+	}
+	h.Ops = append(h.Ops, c01Op{Op: "init", Conf: cur})
+	run := func(maxPeriods int) {
+		W := c01ConfW(cur)
+		if n := g.Intn(maxPeriods*W + 1); n > 0 {
+			h.Ops = append(h.Ops, c01Op{Op: "picks", N: n})
+		}
+	}
+	run(3)
+	for k := g.Range(1, 5); k > 0; k-- {
+		next := histMutate(g, c01HistGen, cur, histWant(g))
+		h.Ops = append(h.Ops, c01Op{Op: "update", Conf: next})
+		cur = next
+		run(3)
+	}
+	// steady block: more picks, then no-op reloads at arbitrary phases
+	run(8)
+	for k := g.Range(1, 4); k > 0; k-- {
+		want := hkNoopSame
+		if g.Chance(1, 3) {
+			want = hkNoopReorder
+		}
+		next := histMutate(g, c01HistGen, cur, want)
+		h.Ops = append(h.Ops, c01Op{Op: "update", Conf: next})
+		cur = next
+		h.Ops = append(h.Ops, c01Op{Op: "picks", N: 1 + g.Intn(3*c01ConfW(cur))})
+	}
+	return h
+}
+
+// c01SysHists: for an ordered pair of weight vectors A -> B of the same
+// backends, one history per phase u in 0..W_B-1: Init(A), a few picks,
+// Update(B), 4*W_B+u picks, Update(B), 2*W_B+1 picks, Update(B reordered),
+// 2*W_B picks.
+func c01SysHists(a, b []int, pre int) []*c01Hist {
+	confA := make([]bspec, len(a))
+	confB := make([]bspec, len(b))
+	for i := range a {
+		confA[i] = c01Spec(i, a[i])
+		confB[i] = c01Spec(i, b[i])
+	}
+	rev := make([]bspec, len(confB))
+	for i := range confB {
+		rev[len(confB)-1-i] = confB[i]
+	}
+	WB := c01ConfW(confB)
+	var out []*c01Hist
+	for u := 0; u < WB; u++ {
+		h := &c01Hist{Via: "rr", Gen: "systematic"}
+		h.Ops = []c01Op{{Op: "init", Conf: confA}}
+		if pre > 0 {
+			h.Ops = append(h.Ops, c01Op{Op: "picks", N: pre})
+		}
+		h.Ops = append(h.Ops,
+			c01Op{Op: "update", Conf: confB}, c01Op{Op: "picks", N: 4*WB + u},
+			c01Op{Op: "update", Conf: confB}, c01Op{Op: "picks", N: 2*WB + 1},
+			c01Op{Op: "update", Conf: rev}, c01Op{Op: "picks", N: 2 * WB})
+		out = append(out, h)
+	}
+	return out
+}
+
+func c01Vectors(n, maxW int) [][]int {
+	var out [][]int
+	var rec func(cur []int)
+	rec = func(cur []int) {
+		if len(cur) == n {
+			out = append(out, append([]int{}, cur...))
+			return
+		}
+		for w := 1; w <= maxW; w++ {
+			rec(append(cur, w))
+		}
+	}
+	rec(nil)
+	return out
+}
+
+func c01Histories(r *vkit.Run) {
+	st := &c01HistStat{}
+	// systematic pairs, every phase
+	type pair struct{ a, b []int }
+	var pairs []pair
+	dims := [][2]int{{2, 5}, {3, 3}}
+	if !r.Quick() {
+		dims = [][2]int{{2, 8}, {3, 4}, {4, 3}}
+	}
+	for _, d := range dims {
+		vs := c01Vectors(d[0], d[1])
+		for _, a := range vs {
+			for _, b := range vs {
+				if !c01Equal(a, b) {
+					pairs = append(pairs, pair{a, b})
+				}
+			}
+		}
+	}
+	r.Count("hist_systematic_pairs", int64(len(pairs)))
+	vkit.Parallel(len(pairs), 0, func(i int) {
+		p := pairs[i]
+		WA := 0
+		for _, w := range p.a {
+			WA += w
+		}
+		for _, h := range c01SysHists(p.a, p.b, i%(WA+1)) {
+			c01HistCheck(r, h, st)
+		}
+	})
+	// random histories
+	n := r.N(15000, 300000)
+	vkit.Parallel(n, 0, func(i int) {
+		c01HistCheck(r, c01RandHist(r.Rng("hist", i)), st)
+	})
+	st.PhasesSeenN = len(st.PhasesSeen)
+	for W := range st.wSeen {
+		st.PhasesTotalN += W
+	}
+	st.PhasesSeen = nil
+	r.Extra("reload_histories", st)
+	for _, k := range histKinds {
+		if r.Counter("hist_reload_"+k) == 0 {
+			r.Inconclusive("no reload of kind " + k + " occurred in any history")
+		}
+	}
+	for _, k := range []string{hkWeight, hkAdd, hkRemove, hkReplace, hkMixed} {
+		if r.Counter("hist_with_noop_in_exact_regime_after_"+k) == 0 {
+			r.Inconclusive("no history had a no-op reload in the exact regime after a last change of kind " + k)
+		}
+	}
+	for _, k := range []string{"hist_noop_in_exact_regime_phase_nonzero", "hist_noop_in_exact_regime_phase0", "hist_random_rr", "hist_random_gslb", "hist_systematic_rr"} {
+		if r.Counter(k) == 0 {
+			r.Inconclusive("counter " + k + " is zero")
+		}
+	}
 }
